@@ -1,7 +1,7 @@
 (* C22 proofs, part 3: the two upward walks (hasProperSharedOrExclusiveUsage and the break/continue
    walk of kernelHasValidLoopBreakAndContinue) against the flag-passing rules of Spec.v. *)
 From Coq Require Import List Bool Arith ZArith Lia.
-From OV.C22 Require Import Model Spec ProofsBase.
+From OV.C22 Require Import Model Spec Statements ProofsBase.
 Import ListNotations.
 
 (* ------------------------------------------------------------------ @shared / @exclusive *)
